@@ -72,7 +72,9 @@ func allocEnum(c *vcore.Ctx, prop string) {
 	for _, base := range []int{100, 10} {
 		reqs := allocRequests(base)
 		for k := 1; k <= maxK; k++ {
-			states := enumNodeStates(k, base, []int64{0, 40, 80}, true)
+			// 130 and 170 > capacity 100: memory over-committed after the capacity was lowered
+			// (the plugin's own validation accepts such a state)
+			states := enumNodeStates(k, base, []int64{0, 40, 80, 130, 170}, true)
 			for _, ms := range []int{-1, 1, 2} {
 				for _, st := range states {
 					idx++
